@@ -191,6 +191,8 @@ def install(I):
     def _next(I, a, k):
         M = _interp_mod()
         it = a[0]
+        if isinstance(it, Opaque) and '__next__' in it.methods:
+            return it.methods['__next__'](I, it, [], {})
         if not isinstance(it, M._Iter):
             I.raise_builtin('TypeError', 'object is not an iterator')
         if it.pos >= len(it.items):
@@ -293,6 +295,9 @@ def isinstance_(I, v, cls):
         n = cls.name
         if n == 'object':
             return True
+        from .values import SymEnumVal as _SE
+        if isinstance(v, _SE):
+            return n == 'Enum'
         if isinstance(v, SymVal):
             return {'int': v.k in ('int', 'bool'), 'float': v.k == 'real', 'bool': v.k == 'bool',
                     'str': v.k in ('str', 'atom'), 'Number': v.k in ops.NUMK,
@@ -335,6 +340,9 @@ def isinstance_(I, v, cls):
             return n == 'type'
         return False
     if isinstance(cls, ClassObj):
+        from .values import SymEnumVal
+        if isinstance(v, SymEnumVal):
+            return v.cls.is_subclass(cls)
         if isinstance(v, PyObj):
             return v.cls.is_subclass(cls)
         if isinstance(v, PyList) and v.cls is not None:
@@ -553,7 +561,7 @@ def builtin_attr(I, obj, name):
         if name == 'appendleft':
             return meth(lambda x: L.items.insert(0, x))
         if name == 'extend':
-            return meth(lambda xs: L.items.extend(I.iterate(xs)))
+            return meth(lambda xs: L.items.extend(list(I.read_items(xs)) if isinstance(xs, PyList) else I.iterate(xs)))
         from .values import Segment
         has_seg = any(isinstance(x, Segment) for x in L.items)
         if name == 'pop':
@@ -744,6 +752,10 @@ def builtin_attr(I, obj, name):
                 raise M.Unsupported('str.%s with symbolic argument' % name)
             return meth(nat)
         return _MISSING
+    from .values import SymNameOf
+    if isinstance(obj, SymNameOf) and name == 'lower':
+        fn = z3.Function('str_lower', z3.StringSort(), z3.StringSort())
+        return meth(lambda: SymNameOf(fn(obj.t), obj.src, True))
     if isinstance(obj, SymVal):
         if obj.k in ('str', 'atom'):
             if name in ('format', 'lower', 'upper', 'title', 'replace', 'strip', 'ljust', 'rjust'):
